@@ -1,6 +1,6 @@
 (* Uniform executable entry point of the model for the correspondence check:
    run_case tag args = the observable outputs the implementation must produce for the same case. *)
-From DDSV Require Import base.Machine model.View model.Layout model.DecoderSM model.EncoderSM model.DecodeScript model.Formats gen.GenFormats spec.SpecLayout.
+From DDSV Require Import base.Machine model.View model.Layout model.DecoderSM model.EncoderSM model.Split model.DecodeScript model.Formats gen.GenFormats spec.SpecLayout.
 
 Local Open Scope Z_scope.
 
@@ -201,6 +201,29 @@ Definition run_c10 (a : list Z) : list Z :=
   | _ => [-99]
   end.
 
+(* ---- C14 split geometry: [fmt; quality; dithering; w; h] -> [len; single; (first row, height) of sampled fragments] *)
+Definition run_c14 (a : list Z) : list Z :=
+  match a with
+  | [fmt; q; d; w; h] =>
+    match find_fmt fmt_table (zn fmt) with
+    | None => [-97]
+    | Some row =>
+      let fh :=
+        match f_enc row, find (fun r => fst r =? zn fmt)%N frag_table with
+        | Some en, Some (_, fps) =>
+            let fp := nth (Z.to_nat q) fps 0%N in
+            let req := (orb (d =? 1) (d =? 3), orb (d =? 2) (d =? 3)) in
+            fragment_height (zn w) (zn h) (e_split_height en) (negb (e_local_dither en =? 0)%N)
+              (negb (e_dither_color en =? 0)%N, negb (e_dither_alpha en =? 0)%N) req fp
+        | _, _ => None
+        end in
+      let len := split_len (zn h) fh in
+      [nz len; bz (len =? 1)%N] ++
+      flat_map (fun i => match fragment_rows (zn h) fh i with Some (s, e) => [nz s; nz (e - s)] | None => [-2] end) (sample_idx len)
+    end
+  | _ => [-99]
+  end.
+
 Definition run_case (tag : Z) (args : list Z) : list Z :=
   match tag with
   | 20 => run_c20 args
@@ -209,6 +232,7 @@ Definition run_case (tag : Z) (args : list Z) : list Z :=
   | 6 => run_c06 args
   | 11 => run_c11 args
   | 10 => run_c10 args
+  | 14 => run_c14 args
   | _ => [-98]
   end.
 
